@@ -196,7 +196,7 @@ def main(argv=None):
   g.add_argument("--verbose", "-v", action="store_true")
   g.set_defaults(fn=cmd_regress)
   s = sub.add_parser("selftest")
-  s.add_argument("what", choices=["determinism"])
+  s.add_argument("what", choices=["determinism", "models"])
   s.add_argument("--repo", default="/repo")
   s.add_argument("--runs", type=int, default=40)
   s.add_argument("--properties", default="")
